@@ -345,7 +345,7 @@ bool Terminal::Impl::executeRunHistoryCmd(SessionContext *s, const Args &args)
                 is_index_valid = true;
             }
         } else {
-            if (s->history.size() >= static_cast<size_t>(-index)) {
+            if (s->history.size() > static_cast<size_t>(-(index + 1))) {
                 s->curr_input = s->history.at(s->history.size() + index);
                 is_index_valid = true;
             }
@@ -358,6 +358,8 @@ bool Terminal::Impl::executeRunHistoryCmd(SessionContext *s, const Args &args)
             s->wp_conn->send(s->token, "Error: index out of range.\r\n");
     } catch (const invalid_argument &e) {
         s->wp_conn->send(s->token, "Error: parse index fail.\r\n");
+    } catch (const out_of_range &e) {
+        s->wp_conn->send(s->token, "Error: index out of range.\r\n");
     }
 
     return false;
